@@ -630,6 +630,9 @@ func main() {
 			if r.exit == 3 {
 				replayLimit = time.Minute // a hang: the replay must exceed a minute on its own (twice)
 				attempts = 2
+				if r.check.Race || r.check.Flaky {
+					attempts = 5 // a schedule-dependent deadlock need not form on every run
+				}
 			}
 			hangs := 0
 			for a := 0; a < attempts && !confirmed; a++ {
